@@ -19,11 +19,14 @@ structure Ann where
 deriving DecidableEq, Repr, Inhabited
 
 /-- chunk ↦ announcements -/
-abbrev S := String → List Ann
+structure S where
+  anns : String → List Ann
 
-def empty : S := fun _ => []
+instance : CoeFun S (fun _ => String → List Ann) := ⟨S.anns⟩
 
-def set (s : S) (c : String) (v : List Ann) : S := fun k => if k = c then v else s k
+def empty : S := ⟨fun _ => []⟩
+
+def set (s : S) (c : String) (v : List Ann) : S := ⟨fun k => if k = c then v else s k⟩
 
 def liveAt (now : Int) (a : Ann) : Bool := decide (now < a.exp)
 
